@@ -121,3 +121,24 @@ _metaB("C20", "C20", "Descriptor and timer sources with auto-close / dup / one-s
 
 CHECKS["C18"] = B("C18", 350, 6000)
 _metaB("C18", "C18", "Timed profile: token buckets of several (rate, burst) pairs, bursts of token-consuming calls separated by generated sleeps and dispatches, re-configurations with user timers present: counting bound b + r*t over every window of accepted calls on the harness clock (sound direction), EAGAIN means no effect, recovery after refill time, no limit after rate 0 or stop/start.")
+
+CHECKS["C06"] = {
+    "stages": [
+        A("thpool", "pool1", name="controlled", cases={"quick": 1500, "thorough": 60000}),
+        A("thpool_race", "race1", name="race", cases={"quick": 60, "thorough": 1500}, libs=("lib-tsan",)),
+    ],
+    "key_classes": ["preempted", "spurious-wakeup", "flags=2", "flags=3"],
+    "assumptions": [
+        "the pool handle is not used concurrently with or after m_thpool_free (the freeing thread frees after every submitter returned)",
+        "pre-emption happens at lock / condition / thread calls only in the controlled stage; interleavings inside critical sections and around the lock-free running-task counter are only sampled by the ThreadSanitizer stage with real threads",
+        "tasks submitted before a concurrent m_thpool_clear returned may legitimately never run",
+    ],
+}
+ENGINES.append({"name": "C-thpool", "path": "harness/thpool", "serves_properties": ["C06"],
+                "kind_free_text": "cooperative scheduler interposed at link time on pthread create/join/mutex/cond (harness owns the schedule; generated choice sequences incl. spurious wake-ups; fork per schedule) + real-thread ThreadSanitizer stage"})
+META["C06"] = {
+    "engine": "C-thpool", "design_ref": "DESIGN.md section 5",
+    "technique": "property-based schedule exploration: rapidcheck-generated schedules executed by a harness-owned cooperative scheduler (link-time pthread interposition) + generated real-thread configurations under ThreadSanitizer",
+    "level_text": "Generated schedules at lock/condition/thread-call granularity for pools of 1-4 threads (eager, lazy, detached), 1-3 submitters and both shutdown modes: exactly-once, bounds, shutdown contract, no use after destroy, deadlock and primitive misuse are verdicts of the controlled run; race freedom is sampled with real threads under ThreadSanitizer. Explored schedules only; no exhaustive enumeration.",
+    "level_note": "Trusts the scheduler shim's model of mutex/condition semantics (harness/thpool/sched.cpp), ASan, ThreadSanitizer's happens-before analysis.",
+}
